@@ -432,6 +432,11 @@ impl Report {
 
     /// Record a violation: write a replay file, print the VIOLATION line.
     pub fn violation(&mut self, sub: &str, tape: Option<&[u32]>, f: &Failure) {
+        if self.violations.len() >= 8 {
+            // enough replay files; keep counting
+            self.violations.push(String::new());
+            return;
+        }
         let dir = format!("{VERIF_DIR}/violations");
         let _ = std::fs::create_dir_all(&dir);
         let path = format!(
